@@ -58,6 +58,10 @@ CLAUSES = [
     "the i-th listed category is the one encoded as index i -> index-space:<stype> <- every category column and row",
     "statistics are those of the frame that is materialized, however the Dataset object was used before -> all keys "
     "above on histories retry / colselect; Coq history_ok",
+    # Backing of every must-not-raise key (there is no must-raise key in this module; the first attempt of a retry
+    # history may raise or not -- the statement demands nothing about a text cell in a numerical column):
+    "*:raises / materialize-raises:* <- 'A column with no usable value gets the documented neutral defaults instead of "
+    "an error' and 'the statistics computed at materialization equal their definitions' (a raise computes nothing)",
     "constructor and call forms do not matter -> all keys above, frame-columns, stats-columns, cache-stats <- split "
     "column kinds, sep / time-format / embedder / tokenizer configuration as dict, partial dict, plain value; "
     "compute_col_stats positional / keyword / defaulted; materialize(device, path) forms",
@@ -89,6 +93,9 @@ ASSUMPTIONS = [
     "category values are shipped to Coq as their rank in the Python-sorted list of the column's distinct values",
     "the count clause is checked, not predicted: there is no model of pandas value_counts; the proved checker "
     "valid_count_order is applied to the implementation's answer on every case (theorems are about the checker)",
+    "no input is REQUIRED to raise: in a retry history the first materialize (text in a numerical column) may raise or "
+    "succeed; only the statistics of the frame finally materialized are judged, and the Coq history model is told by the "
+    "observation whether that attempt completed",
     "columns of pandas `category` dtype (unobserved categories listed with count 0) and category columns mixing "
     "int and str values are outside the quantifier and never drawn",
     "numerical columns held as float32 / Float32 / float16 (numpy computes in that type): values are exactly "
@@ -1184,8 +1191,6 @@ def sanity(cases, obss):
     for k in ("retry", "colselect"):
         if d["histories"][k] == 0:
             probs.append(f"history kind {k} never drawn")
-    if d["histories"]["retry"] and d["first_attempt"].get("TypeError", 0) == 0:
-        probs.append("no retry history whose first materialize raised the documented TypeError")
     # two-class targets whose frequency order differs from the sorted order
     swapped = 0
     for c in cases:
@@ -1357,8 +1362,8 @@ def coq_history(case, obs):
         ops = [(order, 1)]
     elif h["kind"] == "retry":
         ops = [(order, 0), (order, 1)]
-        raises = [(c, 0) for c in order if "exc" in obs["direct_initial"].get(c, {})]
         flags = [obs.get("first_attempt") == "no-raise", True]
+        raises = [] if flags[0] else [(c, 0) for c in order if "exc" in obs["direct_initial"].get(c, {})]
     else:
         sub = list(h["cols"]) + ([case["target"]] if case["target"] and case["target"] not in h["cols"] else [])
         ops = [(sub, 0), (order, 1)]
